@@ -57,7 +57,22 @@ def document(geom, width, cap, join, ml, dash, offset, tf, where, fill, transluc
     pa = "".join(f' {k}="{v}"' for k, v in props.items())
     ps = ' style="' + ";".join(f"{k}:{v}" for k, v in props.items()) + '"'
     root = ""
-    if where == "attr":
+    if where.startswith("override:"):
+        # the shape's own values versus DIFFERENT values of the same properties on its group (incl. an explicit default
+        # against a non-default ancestor, and numbers that differ only by trailing zeros: 1 vs 10, 4 vs 40, 2.5 vs 2.50)
+        inh = dict(props)
+        inh["stroke-width"] = where.split(":")[1]
+        inh["stroke-miterlimit"] = where.split(":")[2]
+        inh["stroke-linecap"] = "round" if cap == "butt" else "butt"
+        inh["stroke-dashoffset"] = "50"
+        mine = dict(props)
+        mine.setdefault("stroke-linecap", cap)
+        mine.setdefault("stroke-miterlimit", str(ml))
+        mine.setdefault("stroke-dashoffset", str(offset))
+        gp = "".join(f' {k}="{v}"' for k, v in inh.items())
+        sp = "".join(f' {k}="{v}"' for k, v in mine.items())
+        body = f"<g{gp}>" + GEOMS[geom].format(a=own + sp) + "</g>"
+    elif where == "attr":
         body = GEOMS[geom].format(a=own + pa)
     elif where == "style":
         body = GEOMS[geom].format(a=own + ps)
@@ -96,6 +111,8 @@ def all_cases(tier):
             yield (geom, 0, cap, join, 4, dash, off, None, where, fill, False)
         for geom, cap, (dash, off), where in itertools.product(("polyline", "line", "circle"), ("butt", "square"), FORMAT_DASHES, ("attr", "style", "group")):
             yield (geom, 10 if cap == "butt" else 4, cap, "round", 4, dash, off, None, where, "none", False)
+        for geom, (w, inh_w, inh_ml), cap, dash in itertools.product(("polyline", "spike", "rect"), ((10, "1", "40"), (4, "40", "4.0"), (10, "100", "0.4"), (10, "10.0", "4")), ("butt", "round"), (("none", 0), ("10 5", 0))):
+            yield (geom, w, cap, "miter", 4, dash[0], dash[1], None, f"override:{inh_w}:{inh_ml}", "none", False)
         # dash arrays with zero entries: a zero dash is a dot under round / square caps and nothing under butt caps; a zero gap joins its neighbours
         for geom, cap, (dash, off), fill in itertools.product(("line", "polyline", "rect", "circle"), ("butt", "round", "square"), ZERO_DASHES, ("none", "orange")):
             if geom in GEOMS:
@@ -216,7 +233,7 @@ def run(run):
     run.rule = (
         "E2 + R3 three-valued strokes: geometry {open polyline with a sharp corner, closed triangle, two-subpath path, cubic S-curve, rect, circle, line} x stroke-width {0 (no stroke at all), 4, 10} x linecap 3 x linejoin 3 "
         "x miterlimit {1,4,10} x dasharray {none, '10' (odd), '10 5', '10 5 2' (odd)} with offsets {0, 7, -3}, the same values in other number spellings (exponents, leading + or ., mixed separators), arrays with zero entries {'0 12', '6 0 0 10', '6 0 4 10'} (zero dash = dot under round/square caps, nothing under butt; zero gap joins its neighbours) x outer transform {none, non-uniform scale, rotate.translate} x where the stroke "
-        "properties are set {own attribute, own style, inherited from group, inherited from root} x fill {none, colour} x {opaque, fill-opacity .5 + stroke-opacity .5} (quick: width 10, miterlimit 4, "
+        "properties are set {own attribute, own style, inherited from group, inherited from root, own attributes overriding different group values incl. numbers that differ only by zeros (1 / 10 / 100, 4 / 40 / 4.0)} x fill {none, colour} x {opaque, fill-opacity .5 + stroke-opacity .5} (quick: width 10, miterlimit 4, "
         "3 dash settings). Oracle: at every point the reference classifies definitely inside / outside the ideal stroke region (delta = 0.5 user units in the shape's own coordinate system), "
         "the output shows the stroke paint directly above the fill with the right alphas; undecided points (caps, joins, dash ends, within delta of the outline) are skipped. "
         "Non-trivial = >= 15 decided-inside and >= 15 decided-outside compared points."
